@@ -32,6 +32,14 @@ theorem trans {a b c : St F} (h1 : Frame a b) (h2 : Frame b c) : Frame a c := by
   exact ⟨h2.locals.trans h1.locals, Nat.le_trans h1.heap h2.heap, Nat.le_trans h1.yields h2.yields,
     h2.stopAt.trans h1.stopAt, fun h => h2.latch (h1.latch h), ⟨s2 ++ s1, by rw [e2, e1, List.append_assoc]⟩⟩
 
+/-- a state that differs from `b` only in fields the frame does not mention -/
+theorem of_same {a b : St F} (h : Frame a b) (c : St F) (e1 : c.locals = b.locals) (e2 : c.heap = b.heap)
+    (e3 : c.yields = b.yields) (e4 : c.stopAt = b.stopAt) (e5 : c.stopped = b.stopped) (e6 : c.trace = b.trace) :
+    Frame a c := by
+  obtain ⟨suf, hs⟩ := h.trace
+  exact ⟨by rw [e1]; exact h.locals, by rw [e2]; exact h.heap, by rw [e3]; exact h.yields,
+    by rw [e4]; exact h.stopAt, by intro hh; rw [e5]; exact h.latch hh, ⟨suf, by rw [e6]; exact hs⟩⟩
+
 end Frame
 
 def Res.st {α : Type} : Res F α → St F
@@ -323,6 +331,70 @@ def BuiltinsOk : Prop :=
   ∀ (name : Str) (vs : List (Val F)) (st : St F) (r : Res F (Val F)), callBuiltin ops ext name vs st = some r → FrameR st r
 
 
+/-! ### the built-in functions keep the frame -/
+
+theorem callExt_frame' (st st' : St F) (f : String) (a d r : List (XArg F)) (h : callExt ext st f a d = (r, st')) : Frame st st' := by
+  have := callExt_frame ext st f a d
+  rw [h] at this; exact this
+
+theorem setGlobalErr_frame (st : St F) (b : Bool) (m : Str) : Frame st (setGlobalErr st b m) :=
+  ⟨rfl, Nat.le_refl _, Nat.le_refl _, rfl, id, ⟨[], rfl⟩⟩
+
+theorem forward_frame (st : St F) (name : String) (xs : List (XArg F)) (d : XArg F) : FrameR st (forward ext st name xs d) := by
+  unfold forward FrameR
+  have := callExt_frame ext st name xs [d]
+  generalize callExt ext st name xs [d] = p at this
+  obtain ⟨r, st'⟩ := p
+  simp only
+  split <;> exact this
+
+theorem randLog_frame (st : St F) (q : List (XArg F)) : Frame st { st with randLog := q } :=
+  ⟨rfl, Nat.le_refl _, Nat.le_refl _, rfl, id, ⟨[], rfl⟩⟩
+
+theorem gfxNums_frame (st : St F) (name : String) (args : List (Val F)) : FrameR st (gfxNums st name args) := by
+  unfold gfxNums FrameR
+  repeat' split
+  all_goals first | exact Frame.refl _ | exact emit_frame _ _
+
+theorem gfxStr_frame (st : St F) (name : String) (args : List (Val F)) : FrameR st (gfxStr st name args) := by
+  unfold gfxStr FrameR
+  repeat' split
+  all_goals first | exact Frame.refl _ | exact emit_frame _ _
+
+theorem builtinsOk : BuiltinsOk ops ext := by
+  intro name vs st r h
+  unfold callBuiltin at h
+  simp only [] at h
+  split at h
+  · simp at h
+  · simp only [Option.some.injEq] at h
+    subst h
+    unfold FrameR
+    split
+    all_goals (repeat' split)
+    all_goals first
+      | exact Frame.refl _
+      | exact emit_frame _ _
+      | exact alloc_frame _ _
+      | exact heapSet_frame _ _ _
+      | exact setGlobalErr_frame _ _ _
+      | exact forward_frame ext _ _ _ _
+      | exact Frame.of_same (Frame.refl _) _ rfl rfl rfl rfl rfl rfl
+      | exact Frame.of_same (emit_frame _ _) _ rfl rfl rfl rfl rfl rfl
+      | (exact callExt_frame' ext _ _ _ _ _ _ (by assumption))
+      | (exact (callExt_frame' ext _ _ _ _ _ _ (by assumption)).trans (setGlobalErr_frame _ _ _))
+      | (exact (callExt_frame' ext _ _ _ _ _ _ (by assumption)).trans (alloc_frame _ _))
+      | (exact (callExt_frame' ext _ _ _ _ _ _ (by assumption)).trans (emit_frame _ _))
+      | exact gfxNums_frame _ _ _
+      | exact gfxStr_frame _ _ _
+      | exact callExt_frame ext _ _ _ _
+      | exact (callExt_frame ext _ _ _ _).trans (emit_frame _ _)
+      | exact (callExt_frame ext _ _ _ _).trans (alloc_frame _ _)
+      | exact (callExt_frame ext _ _ _ _).trans (setGlobalErr_frame _ _ _)
+      | exact ((callExt_frame ext _ _ _ _).trans (callExt_frame ext _ _ _ _)).trans (setGlobalErr_frame _ _ _)
+      | exact (randLog_frame st _).trans (callExt_frame ext _ _ _ _)
+
+
 variable (prog : Program F)
 
 /-- the invariant for all thirteen mutually recursive functions at one step budget -/
@@ -347,7 +419,7 @@ theorem frame_ok {α : Type} {st st' : St F} {a : α} {r : Res F α} (h : FrameR
 theorem frame_err {α : Type} {st st' : St F} {o : Outcome} {r : Res F α} (h : FrameR st r) (e : r = .err o st') : Frame st st' := by
   subst e; exact h
 
-theorem evalE_step (hB : BuiltinsOk ops ext) (n : Nat) (ih : AllFrame ops ext prog n) :
+theorem evalE_step (n : Nat) (ih : AllFrame ops ext prog n) :
     ∀ (e : Expr F) st, FrameR st (evalE ops ext prog (n + 1) e st) := by
   obtain ⟨ihE, ihOpt, ihList, ihPairs, ihCall, _⟩ := ih
   intro e st0
@@ -439,5 +511,468 @@ theorem evalE_step (hB : BuiltinsOk ops ext) (n : Nat) (ih : AllFrame ops ext pr
       | ok v s1 =>
         have f1 := ft.trans (frame_ok (ihE inner st) hi)
         cases v <;> simp only <;> first | exact f1 | (split <;> exact f1)
+
+
+theorem evalOpt_step (n : Nat) (ih : AllFrame ops ext prog n) :
+    ∀ (oe : Option (Expr F)) st, FrameR st (evalOpt ops ext prog (n + 1) oe st) := by
+  obtain ⟨ihE, _⟩ := ih
+  intro oe st
+  cases oe with
+  | none => simp only [evalOpt]; exact Frame.refl _
+  | some e =>
+    simp only [evalOpt]
+    cases hi : evalE ops ext prog n e st with
+    | err o s1 => exact frame_err (ihE e st) hi
+    | ok v s1 => exact frame_ok (ihE e st) hi
+
+theorem evalList_step (n : Nat) (ih : AllFrame ops ext prog n) :
+    ∀ (es : List (Expr F)) st, FrameR st (evalList ops ext prog (n + 1) es st) := by
+  obtain ⟨ihE, _, ihList, _⟩ := ih
+  intro es st
+  cases es with
+  | nil => simp only [evalList]; exact Frame.refl _
+  | cons e rest =>
+    simp only [evalList]
+    cases hi : evalE ops ext prog n e st with
+    | err o s1 => exact frame_err (ihE e st) hi
+    | ok v s1 =>
+      have f1 := frame_ok (ihE e st) hi
+      simp only
+      cases hr : evalList ops ext prog n rest s1 with
+      | err o s2 => exact f1.trans (frame_err (ihList rest s1) hr)
+      | ok vs s2 => exact f1.trans (frame_ok (ihList rest s1) hr)
+
+theorem evalPairs_step (n : Nat) (ih : AllFrame ops ext prog n) :
+    ∀ (ps : List (Str × Expr F)) st, FrameR st (evalPairs ops ext prog (n + 1) ps st) := by
+  obtain ⟨ihE, _, _, ihPairs, _⟩ := ih
+  intro ps st
+  cases ps with
+  | nil => simp only [evalPairs]; exact Frame.refl _
+  | cons p rest =>
+    obtain ⟨k, e⟩ := p
+    simp only [evalPairs]
+    cases hi : evalE ops ext prog n e st with
+    | err o s1 => exact frame_err (ihE e st) hi
+    | ok v s1 =>
+      have f1 := frame_ok (ihE e st) hi
+      simp only
+      cases hr : evalPairs ops ext prog n rest s1 with
+      | err o s2 => exact f1.trans (frame_err (ihPairs rest s1) hr)
+      | ok vs s2 => exact f1.trans (frame_ok (ihPairs rest s1) hr)
+
+/-- restoring the caller's scopes after the callee ran from `calleeState` -/
+theorem call_restore (fd : FuncDef F) (vs : List (Val F)) (st' st4 : St F)
+    (h : Frame (calleeState fd vs st') st4) : Frame st' { st4 with locals := st'.locals } := by
+  have h0 := calleeState_frame fd vs st'
+  have h1 := h0.trans h
+  obtain ⟨suf, hs⟩ := h1.trace
+  exact ⟨rfl, h1.heap, h1.yields, h1.stopAt, h1.latch, ⟨suf, hs⟩⟩
+
+theorem evalCall_step (hB : BuiltinsOk ops ext) (n : Nat) (ih : AllFrame ops ext prog n) :
+    ∀ (name : Str) (args : List (Expr F)) st, FrameR st (evalCall ops ext prog (n + 1) name args st) := by
+  obtain ⟨_, _, ihList, _, _, ihBlock, _⟩ := ih
+  intro name args st
+  simp only [evalCall]
+  cases hl : evalList ops ext prog n args st with
+  | err o s1 => exact frame_err (ihList args st) hl
+  | ok vs s1 =>
+    have f1 := frame_ok (ihList args st) hl
+    simp only
+    cases hb : callBuiltin ops ext name vs s1 with
+    | some r =>
+      have fb : Frame s1 r.st := hB name vs s1 r hb
+      simp only
+      split
+      · -- test bookkeeping only touches the counters
+        split
+        · exact f1.trans (Frame.of_same fb _ rfl rfl rfl rfl rfl rfl)
+        · split <;> exact f1.trans (Frame.of_same fb _ rfl rfl rfl rfl rfl rfl)
+        · exact f1.trans (Frame.of_same fb _ rfl rfl rfl rfl rfl rfl)
+      · exact f1.trans fb
+    | none =>
+      simp only
+      cases hf : lookupFunc prog.funcs name with
+      | none => exact f1
+      | some fd =>
+        simp only
+        split
+        · exact f1
+        · cases hx : execBlockNode ops ext prog n fd.body (calleeState fd vs s1) with
+          | err o s4 => exact f1.trans (call_restore fd vs s1 s4 (frame_err (ihBlock fd.body _) hx))
+          | ok c s4 =>
+            have f2 := f1.trans (call_restore fd vs s1 s4 (frame_ok (ihBlock fd.body _) hx))
+            cases c with
+            | ret v => cases v <;> exact f2
+            | normal => exact f2
+            | brk => exact f2
+
+
+theorem execBlockNode_step (n : Nat) (ih : AllFrame ops ext prog n) :
+    ∀ (b : List (Stmt F)) st, FrameR st (execBlockNode ops ext prog (n + 1) b st) := by
+  obtain ⟨_, _, _, _, _, _, ihStmts, _⟩ := ih
+  intro b st0
+  unfold execBlockNode
+  cases ht : tick st0 with
+  | none => exact Frame.refl _
+  | some st => exact (tick_frame st0 st ht).trans (ihStmts b st)
+
+theorem execStmts_step (n : Nat) (ih : AllFrame ops ext prog n) :
+    ∀ (b : List (Stmt F)) st, FrameR st (execStmts ops ext prog (n + 1) b st) := by
+  obtain ⟨_, _, _, _, _, _, ihStmts, _, _, _, _, _, ihS⟩ := ih
+  intro b st
+  cases b with
+  | nil => simp only [execStmts]; exact Frame.refl _
+  | cons s rest =>
+    simp only [execStmts]
+    cases hs : execS ops ext prog n s st with
+    | err o s1 => exact frame_err (ihS s st) hs
+    | ok c s1 =>
+      have f1 := frame_ok (ihS s st) hs
+      cases c with
+      | normal => exact f1.trans (ihStmts rest s1)
+      | brk => exact f1
+      | ret v => exact f1
+
+theorem execCond_step (n : Nat) (ih : AllFrame ops ext prog n) :
+    ∀ (c : Expr F) (b : List (Stmt F)) st, FrameR st (execCond ops ext prog (n + 1) c b st) := by
+  obtain ⟨ihE, _, _, _, _, ihBlock, _⟩ := ih
+  intro c b st
+  simp only [execCond]
+  cases he : evalE ops ext prog n c (pushScope st) with
+  | err o s1 => exact push_pop_frame st s1 (frame_err (ihE c _) he)
+  | ok v s1 =>
+    have f1 : Frame (pushScope st) s1 := frame_ok (ihE c _) he
+    cases v with
+    | bool bv =>
+      cases bv with
+      | true =>
+        simp only
+        cases hx : execBlockNode ops ext prog n b s1 with
+        | err o s2 => exact push_pop_frame st s2 (f1.trans (frame_err (ihBlock b s1) hx))
+        | ok comp s2 => exact push_pop_frame st s2 (f1.trans (frame_ok (ihBlock b s1) hx))
+      | false => exact push_pop_frame st s1 f1
+    | _ => exact push_pop_frame st s1 f1
+
+theorem execIfChain_step (n : Nat) (ih : AllFrame ops ext prog n) :
+    ∀ (cs : List (Expr F × List (Stmt F))) (e : Option (List (Stmt F))) st,
+      FrameR st (execIfChain ops ext prog (n + 1) cs e st) := by
+  obtain ⟨_, _, _, _, _, ihBlock, _, ihCond, ihIf, _⟩ := ih
+  intro cs e st
+  cases cs with
+  | nil =>
+    simp only [execIfChain]
+    cases e with
+    | none => exact Frame.refl _
+    | some body =>
+      simp only
+      cases hx : execBlockNode ops ext prog n body (pushScope st) with
+      | err o s2 => exact push_pop_frame st s2 (frame_err (ihBlock body _) hx)
+      | ok comp s2 => exact push_pop_frame st s2 (frame_ok (ihBlock body _) hx)
+  | cons cb rest =>
+    obtain ⟨c, body⟩ := cb
+    simp only [execIfChain]
+    cases hx : execCond ops ext prog n c body st with
+    | err o s1 => exact frame_err (ihCond c body st) hx
+    | ok r s1 =>
+      have f1 := frame_ok (ihCond c body st) hx
+      obtain ⟨comp, taken⟩ := r
+      cases taken with
+      | true => exact f1
+      | false => exact f1.trans (ihIf rest e s1)
+
+theorem execWhile_step (n : Nat) (ih : AllFrame ops ext prog n) :
+    ∀ (c : Expr F) (b : List (Stmt F)) st, FrameR st (execWhile ops ext prog (n + 1) c b st) := by
+  obtain ⟨_, _, _, _, _, _, _, ihCond, _, ihWhile, _⟩ := ih
+  intro c b st
+  simp only [execWhile]
+  cases hx : execCond ops ext prog n c b st with
+  | err o s1 => exact frame_err (ihCond c b st) hx
+  | ok r s1 =>
+    have f1 := frame_ok (ihCond c b st) hx
+    obtain ⟨comp, taken⟩ := r
+    cases taken with
+    | false => exact f1
+    | true =>
+      cases comp with
+      | brk => exact f1
+      | ret v => exact f1
+      | normal => exact f1.trans (ihWhile c b s1)
+
+theorem execForLoop_step (n : Nat) (ih : AllFrame ops ext prog n) :
+    ∀ (lv : Str) (r : Ranger F) (b : List (Stmt F)) st, FrameR st (execForLoop ops ext prog (n + 1) lv r b st) := by
+  obtain ⟨_, _, _, _, _, ihBlock, _, _, _, _, ihFor, _⟩ := ih
+  intro lv r b st
+  simp only [execForLoop]
+  cases hn : rangerNext ops st r with
+  | none => exact Frame.refl _
+  | some p =>
+    obtain ⟨v, r'⟩ := p
+    simp only
+    cases hu : updateVar st lv v with
+    | none => exact Frame.refl _
+    | some st1 =>
+      have f1 := updateVar_frame st st1 lv v hu
+      simp only
+      cases hx : execBlockNode ops ext prog n b (pushScope st1) with
+      | err o s2 => exact f1.trans (push_pop_frame st1 s2 (frame_err (ihBlock b _) hx))
+      | ok comp s2 =>
+        have f2 := f1.trans (push_pop_frame st1 s2 (frame_ok (ihBlock b _) hx))
+        cases comp with
+        | brk => exact f2
+        | ret rv => exact f2
+        | normal => exact f2.trans (ihFor lv r' b (popScope s2))
+
+theorem evalNumOr_step (n : Nat) (ih : AllFrame ops ext prog n) :
+    ∀ (oe : Option (Expr F)) (d : F) st, FrameR st (evalNumOr ops ext prog (n + 1) oe d st) := by
+  obtain ⟨ihE, _⟩ := ih
+  intro oe d st
+  have key : ∀ e : Expr F, FrameR st (match evalE ops ext prog n e st with
+      | .err o st' => (.err o st' : Res F F)
+      | .ok (.num v) st' => .ok v st'
+      | .ok _ st' => .err (.internal "ErrType: expected number") st') := by
+    intro e
+    cases he : evalE ops ext prog n e st with
+    | err o s1 => exact frame_err (ihE e st) he
+    | ok v s1 =>
+      have f1 := frame_ok (ihE e st) he
+      cases v <;> exact f1
+  cases oe with
+  | none => simp only [evalNumOr]; exact key _
+  | some e => simp only [evalNumOr]; exact key _
+
+
+/-- the tail of evalFor: after the ranger has been created inside the loop's own scope -/
+theorem for_tail (n : Nat) (ihFor : ∀ (lv : Str) (r : Ranger F) (b : List (Stmt F)) st, FrameR st (execForLoop ops ext prog n lv r b st))
+    (st : St F) (lv : Str) (body : List (Stmt F)) (rr : Res F (Ranger F)) (h : FrameR (pushScope st) rr) :
+    FrameR st (match rr with
+      | .err o s => (.err o (popScope s) : Res F (Completion F))
+      | .ok r s =>
+        match execForLoop ops ext prog n lv r body s with
+        | .err o s' => .err o (popScope s')
+        | .ok c s' => .ok c (popScope s')) := by
+  cases rr with
+  | err o s => exact push_pop_frame st s h
+  | ok r s =>
+    have h0 : Frame (pushScope st) s := h
+    simp only
+    cases hx : execForLoop ops ext prog n lv r body s with
+    | err o s' => exact push_pop_frame st s' (h0.trans (frame_err (ihFor lv r body s) hx))
+    | ok c s' => exact push_pop_frame st s' (h0.trans (frame_ok (ihFor lv r body s) hx))
+
+theorem execS_step (n : Nat) (ih : AllFrame ops ext prog n) :
+    ∀ (s : Stmt F) st, FrameR st (execS ops ext prog (n + 1) s st) := by
+  obtain ⟨ihE, _, _, _, ihCall, _, _, _, ihIf, ihWhile, ihFor, ihNumOr, _⟩ := ih
+  intro s st0
+  unfold execS
+  cases ht : tick st0 with
+  | none => exact Frame.refl _
+  | some st =>
+    have ft := tick_frame st0 st ht
+    simp only
+    cases s with
+    | noop => exact ft
+    | brk => exact ft
+    | decl name value =>
+      simp only
+      cases he : evalE ops ext prog n value st with
+      | err o s1 => exact ft.trans (frame_err (ihE value st) he)
+      | ok v s1 => exact (ft.trans (frame_ok (ihE value st) he)).trans (setVar_frame _ _ _)
+    | callS e =>
+      cases e with
+      | call name args =>
+        simp only
+        cases hc : evalCall ops ext prog n name args st with
+        | err o s1 => exact ft.trans (frame_err (ihCall name args st) hc)
+        | ok v s1 => exact ft.trans (frame_ok (ihCall name args st) hc)
+      | _ => exact ft
+    | ret v =>
+      cases v with
+      | none => exact ft
+      | some e =>
+        simp only
+        cases he : evalE ops ext prog n e st with
+        | err o s1 => exact ft.trans (frame_err (ihE e st) he)
+        | ok v s1 => exact ft.trans (frame_ok (ihE e st) he)
+    | ifS conds els => exact ft.trans (ihIf conds els st)
+    | whileS c body => exact ft.trans (ihWhile c body st)
+    | assign target value =>
+      simp only
+      cases he : evalE ops ext prog n value st with
+      | err o s1 => exact ft.trans (frame_err (ihE value st) he)
+      | ok v s1 =>
+        have f1 := ft.trans (frame_ok (ihE value st) he)
+        simp only
+        cases target with
+        | var nm =>
+          simp only
+          cases hu : updateVar s1 nm v with
+          | none => exact f1
+          | some s2 => exact f1.trans (updateVar_frame s1 s2 nm v hu)
+        | index l i =>
+          simp only
+          cases hl : evalE ops ext prog n l s1 with
+          | err o s2 => exact f1.trans (frame_err (ihE l s1) hl)
+          | ok left s2 =>
+            have f2 := f1.trans (frame_ok (ihE l s1) hl)
+            simp only
+            cases hi : evalE ops ext prog n i s2 with
+            | err o s3 => exact f2.trans (frame_err (ihE i s2) hi)
+            | ok idx s3 =>
+              have f3 := f2.trans (frame_ok (ihE i s2) hi)
+              simp only
+              repeat' split
+              all_goals first | exact f3 | exact f3.trans (heapSet_frame _ _ _)
+        | dot l key =>
+          simp only
+          cases hl : evalE ops ext prog n l s1 with
+          | err o s2 => exact f1.trans (frame_err (ihE l s1) hl)
+          | ok left s2 =>
+            have f2 := f1.trans (frame_ok (ihE l s1) hl)
+            cases left <;> simp only <;> first | exact f2 | ((repeat' split) <;> first | exact f2 | exact f2.trans (heapSet_frame _ _ _))
+        | _ => exact f1
+    | forS lvOpt lvTy range body =>
+      refine ft.trans (for_tail ops ext prog n ihFor st _ body _ ?_)
+      cases range with
+      | step start stop step =>
+        simp only
+        cases h1 : evalNumOr ops ext prog n start ops.zero (pushScope st) with
+        | err o s1 => exact frame_err (ihNumOr start ops.zero _) h1
+        | ok a s1 =>
+          have f1 := frame_ok (ihNumOr start ops.zero _) h1
+          simp only
+          cases h2 : evalNumOr ops ext prog n (some stop) ops.zero s1 with
+          | err o s2 => exact f1.trans (frame_err (ihNumOr (some stop) ops.zero s1) h2)
+          | ok b s2 =>
+            have f2 := f1.trans (frame_ok (ihNumOr (some stop) ops.zero s1) h2)
+            simp only
+            cases h3 : evalNumOr ops ext prog n step ops.one s2 with
+            | err o s3 => exact f2.trans (frame_err (ihNumOr step ops.one s2) h3)
+            | ok c s3 =>
+              have f3 := f2.trans (frame_ok (ihNumOr step ops.one s2) h3)
+              simp only
+              split
+              · exact f3
+              · cases lvOpt with
+                | none => exact f3
+                | some nm => exact f3.trans (setVar_frame _ _ _)
+      | over e =>
+        simp only
+        cases he : evalE ops ext prog n e (pushScope st) with
+        | err o s1 => exact frame_err (ihE e _) he
+        | ok v s1 =>
+          have f1 : Frame (pushScope st) s1 := frame_ok (ihE e _) he
+          cases v with
+          | arr a =>
+            cases lvOpt with
+            | none => exact f1
+            | some nm => exact f1.trans ((zeroVal_frame ops s1 lvTy).trans (setVar_frame _ _ _))
+          | str cs =>
+            cases lvOpt with
+            | none => exact f1
+            | some nm => exact f1.trans (setVar_frame _ _ _)
+          | map a =>
+            simp only
+            split
+            · cases lvOpt with
+              | none => exact f1
+              | some nm => exact f1.trans (setVar_frame _ _ _)
+            · exact f1
+          | _ => exact f1
+
+
+theorem allFrame_zero : AllFrame ops ext prog 0 := by
+  refine ⟨?_, ?_, ?_, ?_, ?_, ?_, ?_, ?_, ?_, ?_, ?_, ?_, ?_⟩ <;> intros <;>
+    simp only [evalE, evalOpt, evalList, evalPairs, evalCall, execBlockNode, execStmts, execCond, execIfChain,
+      execWhile, execForLoop, evalNumOr, execS] <;> exact Frame.refl _
+
+/-- **the frame invariant**, for every program, every state, every oracle and every step budget: all
+thirteen functions of the interpreter leave a state that extends the one they started from -/
+theorem allFrame (hB : BuiltinsOk ops ext) : ∀ n, AllFrame ops ext prog n := by
+  intro n
+  induction n with
+  | zero => exact allFrame_zero ops ext prog
+  | succ k ih =>
+    exact ⟨evalE_step ops ext prog k ih, evalOpt_step ops ext prog k ih, evalList_step ops ext prog k ih,
+      evalPairs_step ops ext prog k ih, evalCall_step ops ext prog hB k ih, execBlockNode_step ops ext prog k ih,
+      execStmts_step ops ext prog k ih, execCond_step ops ext prog k ih, execIfChain_step ops ext prog k ih,
+      execWhile_step ops ext prog k ih, execForLoop_step ops ext prog k ih, evalNumOr_step ops ext prog k ih,
+      execS_step ops ext prog k ih⟩
+
+
+/-- **the frame invariant, unconditionally** -/
+theorem frame_invariant : ∀ n, AllFrame ops ext prog n := allFrame ops ext prog (builtinsOk ops ext)
+
+/-! ### corollaries in the words of the properties -/
+
+/-- C10: a statement list — whatever it does, however it ends — leaves the scope stack as deep as it
+found it: every block scope is popped on every exit path, a call restores the caller's scopes -/
+theorem scopes_balanced (n : Nat) (b : List (Stmt F)) (st : St F) :
+    (execStmts ops ext prog n b st).st.locals.length = st.locals.length :=
+  ((frame_invariant ops ext prog n).2.2.2.2.2.2.1 b st).locals
+
+theorem scopes_balanced_expr (n : Nat) (e : Expr F) (st : St F) :
+    (evalE ops ext prog n e st).st.locals.length = st.locals.length :=
+  ((frame_invariant ops ext prog n).1 e st).locals
+
+/-- C09: no object is ever freed or moved — an address that is valid stays valid, through any
+execution -/
+theorem addresses_stay_valid (n : Nat) (b : List (Stmt F)) (st : St F) (a : Nat) (h : a < st.heap.size) :
+    a < (execStmts ops ext prog n b st).st.heap.size :=
+  Nat.lt_of_lt_of_le h ((frame_invariant ops ext prog n).2.2.2.2.2.2.1 b st).heap
+
+/-- C14: a raised stop flag stays raised, the stop request is not altered, the yield counter and the
+platform trace only grow — through any execution -/
+theorem stop_latched_effects_kept (n : Nat) (b : List (Stmt F)) (st : St F) :
+    let st' := (execStmts ops ext prog n b st).st
+    (st.stopped = true → st'.stopped = true) ∧ st'.stopAt = st.stopAt ∧ st.yields ≤ st'.yields ∧
+    ∃ suf, st'.trace = suf ++ st.trace :=
+  let f := (frame_invariant ops ext prog n).2.2.2.2.2.2.1 b st
+  ⟨f.latch, f.stopAt, f.yields, f.trace⟩
+
+
+theorem bindPayload_frame : ∀ (ps : List (Str × Ty)) (vs : List (Val F)) (st st' : St F),
+    bindPayload ps vs st = some st' → Frame st st' := by
+  intro ps
+  induction ps with
+  | nil => intro vs st st' h; simp [bindPayload] at h; subst h; exact Frame.refl _
+  | cons p rest ih =>
+    intro vs st st' h
+    obtain ⟨n, t⟩ := p
+    cases vs with
+    | nil => simp [bindPayload] at h
+    | cons v vs' =>
+      simp only [bindPayload] at h
+      split at h
+      · exact (setVar_frame st n v).trans (ih vs' _ st' h)
+      · simp at h
+
+/-- C15: an event handler, however it ends, gives the scope stack back exactly as it was, shares heap
+and globals with the main program, and only adds to the trace -/
+theorem handleEvent_frame (n : Nat) (name : Str) (payload : List (Val F)) (st : St F) :
+    let st' := (handleEvent ops ext prog n name payload st).2
+    st'.locals = st.locals ∧ st.heap.size ≤ st'.heap.size ∧ st.yields ≤ st'.yields ∧ st'.stopAt = st.stopAt ∧
+    (st.stopped = true → st'.stopped = true) ∧ ∃ suf, st'.trace = suf ++ st.trace := by
+  have base : ∀ (s4 : St F), Frame ({ st with locals := [[]] } : St F) s4 →
+      ({ s4 with locals := st.locals } : St F).locals = st.locals ∧ st.heap.size ≤ ({ s4 with locals := st.locals } : St F).heap.size ∧
+      st.yields ≤ ({ s4 with locals := st.locals } : St F).yields ∧ ({ s4 with locals := st.locals } : St F).stopAt = st.stopAt ∧
+      (st.stopped = true → ({ s4 with locals := st.locals } : St F).stopped = true) ∧
+      ∃ suf, ({ s4 with locals := st.locals } : St F).trace = suf ++ st.trace := by
+    intro s4 h
+    exact ⟨rfl, h.heap, h.yields, h.stopAt, h.latch, h.trace⟩
+  unfold handleEvent
+  cases hf : prog.handlers.find? (fun h => h.name == name) with
+  | none => exact ⟨rfl, Nat.le_refl _, Nat.le_refl _, rfl, id, ⟨[], rfl⟩⟩
+  | some h =>
+    simp only
+    split
+    · exact ⟨rfl, Nat.le_refl _, Nat.le_refl _, rfl, id, ⟨[], rfl⟩⟩
+    · cases hb : bindPayload h.params payload { st with locals := [[]] } with
+      | none => exact base ({ st with locals := [[]] }) (Frame.refl _)
+      | some st2 =>
+        have f1 := bindPayload_frame h.params payload _ st2 hb
+        simp only
+        cases hx : execBlockNode ops ext prog n h.body st2 with
+        | err o s4 => exact base s4 (f1.trans (frame_err ((frame_invariant ops ext prog n).2.2.2.2.2.1 h.body st2) hx))
+        | ok c s4 => exact base s4 (f1.trans (frame_ok ((frame_invariant ops ext prog n).2.2.2.2.2.1 h.body st2) hx))
 
 end EvyV
